@@ -58,7 +58,11 @@ Definition shapeE (c c' : client) : Prop :=
   c_closed c' = true.
 
 Definition uni (e : cev) : Prop :=
-  match e with EvExists _ | EvExpunge _ | EvFlags _ | EvPermFlags _ | EvOther => True | _ => False end.
+  match e with
+  | EvExists _ | EvExpunge _ | EvFlags _ | EvPermFlags _ | EvOther
+  | EvListData _ | EvSearchData _ => True
+  | _ => False
+  end.
 
 Lemma shapeU_refl : forall c, shapeU c c.
 Proof. intro c; unfold shapeU; repeat split; auto. Qed.
@@ -87,7 +91,8 @@ Proof.
   intros c e Hu. destruct (c_closed c) eqn:Hc.
   - rewrite step_closed_nosubmit; auto using shapeU_refl.
     intros k ->. exact Hu.
-  - destruct e; simpl in Hu; try contradiction; unfold step; rewrite Hc; cbv zeta.
+  - destruct e; simpl in Hu; try contradiction; unfold step; rewrite Hc; cbv zeta;
+      try apply shapeU_refl.     (* EvOther, EvListData, EvSearchData: no change *)
     + (* EvExists *)
       destruct (upd_first _ _ (c_pending c)) eqn:U.
       * assert (E : map p_tag l = map p_tag (c_pending c))
@@ -108,7 +113,6 @@ Proof.
       apply upd_shapeU; [reflexivity|exact Hc|].
       destruct (c_mbox c) eqn:M; [destruct (c_state c =? S_SEL)|]; try apply shapeU_refl.
       unfold shapeU; simpl; rewrite M; repeat split; auto; intro X; discriminate X.
-    + apply shapeU_refl.
 Qed.
 
 Lemma on_ok_fields : forall c p,
@@ -125,17 +129,18 @@ Proof.
     unfold shapeA; repeat split; auto; congruence. }
   destruct e; try (left; apply HU; exact I); clear HU; unfold step; rewrite Hc.
   - (* EvGreeting *)
-    destruct (kind =? 0); [left; unfold shapeA; simpl; auto|].
-    destruct (kind =? 1); [left; unfold shapeA; simpl; auto|].
+    destruct (_ =? 0); [left; unfold shapeA; simpl; auto|].
+    destruct (_ =? 1); [left; unfold shapeA; simpl; auto|].
     right; right; right. unfold shapeD; simpl; auto.
   - (* EvSubmit *)
     right; left. unfold shapeB, pending_tags; simpl. rewrite map_app; simpl; auto.
   - (* EvTagged *)
-    destruct (take_tag tag (c_pending c)) as [[p rest]|] eqn:T.
-    + right; right; left. exists tag, status, p, rest. split; [exact T|].
-      destruct (status =? 0).
-      * destruct (on_ok_fields (mkC (c_state c) (c_mbox c) rest (c_tag c) ((tag, status) :: c_done c) false) p)
-          as (A & B & C & D). rewrite A, B, C, D; simpl; auto.
+    destruct (take_tag _ (c_pending c)) as [[p rest]|] eqn:T.
+    + right; right; left. do 2 eexists; exists p, rest. split; [exact T|].
+      destruct (_ =? 0).
+      * match goal with |- context [on_ok ?c1 ?q] =>
+          destruct (on_ok_fields c1 q) as (A & B & C & D); rewrite A, B, C, D end.
+        simpl; auto.
       * simpl; auto.
     + right; right; right. unfold shapeD; simpl; auto.
   - (* EvClosed *)
@@ -288,14 +293,14 @@ Proof.
       rewrite S, F. exact M. }
     destruct e; try (apply HU; exact I); clear HU; unfold step; rewrite Hc.
     + (* EvGreeting *)
-      destruct (kind =? 0); [apply MInv_set_state; discriminate|].
-      destruct (kind =? 1); [apply MInv_set_state; discriminate|].
+      destruct (_ =? 0); [apply MInv_set_state; discriminate|].
+      destruct (_ =? 1); [apply MInv_set_state; discriminate|].
       intro H; discriminate H.
     + (* EvSubmit *)
       intros _; simpl; exact M.
     + (* EvTagged *)
-      destruct (take_tag tag (c_pending c)) as [[p rest]|] eqn:T; [|intro H; discriminate H].
-      destruct (status =? 0); [|intros _; simpl; exact M].
+      destruct (take_tag _ (c_pending c)) as [[p rest]|] eqn:T; [|intro H; discriminate H].
+      destruct (_ =? 0); [|intros _; simpl; exact M].
       unfold on_ok. destruct (p_kind p); try (apply MInv_set_state; discriminate);
         try (intros _; simpl; exact M).
       intros _; simpl. split; [reflexivity|discriminate].
@@ -382,7 +387,11 @@ Qed.
 (* unilateral data never completes, adds or removes a command, and never changes the
    connection state (only [CLOSED] and the greeting do) *)
 Definition unilateral (e : cev) : bool :=
-  match e with EvExists _ | EvExpunge _ | EvFlags _ | EvPermFlags _ | EvOther => true | _ => false end.
+  match e with
+  | EvExists _ | EvExpunge _ | EvFlags _ | EvPermFlags _ | EvOther
+  | EvListData _ | EvSearchData _ => true
+  | _ => false
+  end.
 Lemma unilateral_routing : forall evs e, unilateral e = true ->
   let c := run evs in let c' := run (evs ++ [e]) in
   c_done c' = c_done c /\ pending_tags c' = pending_tags c /\ c_state c' = c_state c /\ c_tag c' = c_tag c.
